@@ -17,6 +17,9 @@ import traceback
 from . import findings as findings_mod
 
 VERIF = os.path.dirname(os.path.dirname(os.path.abspath(__file__)))
+REPO = os.environ.get("VERIF_REPO") or "/repo"
+# runs against a scratch copy of the repository (seeded changes) keep their evidence and replays apart
+OUT = VERIF if REPO == "/repo" else os.path.join(VERIF, ".alt")
 
 
 class MachineryError(Exception):
@@ -37,7 +40,7 @@ class Ctx:
         os.makedirs(self.scratch)
         import glob
 
-        for old in glob.glob(os.path.join(VERIF, "replays", f"{pid}-*.json")):
+        for old in glob.glob(os.path.join(OUT, "replays", f"{pid}-*.json")):
             os.unlink(old)
         self.violations: list[dict] = []
         self.known: list[str] = []
@@ -59,8 +62,8 @@ class Ctx:
                 print(line, flush=True)
             return
         self._nrep += 1
-        os.makedirs(os.path.join(VERIF, "replays"), exist_ok=True)
-        path = os.path.join(VERIF, "replays", f"{self.pid}-{self._nrep}.json")
+        os.makedirs(os.path.join(OUT, "replays"), exist_ok=True)
+        path = os.path.join(OUT, "replays", f"{self.pid}-{self._nrep}.json")
         with open(path, "w") as f:
             json.dump({"property": self.pid, "what": what, "replay": replay_obj}, f, default=repr, indent=1)
         self.violations.append({"what": what, "replay": path})
@@ -80,8 +83,8 @@ def assert_repo_execnet() -> None:
     import execnet
 
     f = os.path.realpath(execnet.__file__)
-    if not f.startswith("/repo/src/"):
-        print(f"MACHINERY: execnet imported from {f}, not /repo/src", file=sys.stderr)
+    if not f.startswith(REPO + "/src/"):
+        print(f"MACHINERY: execnet imported from {f}, not {REPO}/src", file=sys.stderr)
         sys.exit(2)
 
 
@@ -127,8 +130,8 @@ def main(argv=None) -> int:
             "known_findings": ctx.known,
             "notes": ctx.notes[-40:],
         }
-        os.makedirs(os.path.join(VERIF, "evidence"), exist_ok=True)
-        with open(os.path.join(VERIF, "evidence", f"{pid}.json"), "w") as f:
+        os.makedirs(os.path.join(OUT, "evidence"), exist_ok=True)
+        with open(os.path.join(OUT, "evidence", f"{pid}.json"), "w") as f:
             json.dump(ev, f, indent=1, default=repr)
         if ctx.violations:
             rc = 1
